@@ -109,6 +109,12 @@ exec(open(os.path.join(HERE, 'gen_tail3.py')).read())
 # every VERIFIED contract is also checked for C01 (deterministic block execution): no node-local source is called, and
 # every verified callee carries the same clause (assumed / pure summaries are exempt)
 DET = '//@   deterministic[C01.no_node_local_source]'
+# default: every verified contract (the engine checks a function that belongs to C01 only through this clause for the
+# determinism obligations and covers only); CPC_DET=newevm: only the contracts NewEVM reaches
+DET_ALL = os.environ.get('CPC_DET', '') != 'newevm'
+DET_FUNCS = ['GetParams(', 'GetProtocolCpcVersion(', 'GetAllCustomPrecompiledContractsMeta(', 'GetAllCustomPrecompiledContracts(',
+             'func NewCustomPrecompiledContract(', 'func NewErc20CustomPrecompiledContract(', 'func NewCustomPrecompiledContractMethod(',
+             ') GetMetadata(', ') GetMethodExecutors(']
 def add_det(text):
     lines = text.split('\n')
     res = []
@@ -121,7 +127,7 @@ def add_det(text):
                 j += 1
             block = lines[i:j]
             body = '\n'.join(block)
-            if '//@   assumed' not in body and 'deterministic' not in body:
+            if '//@   assumed' not in body and 'deterministic' not in body and (DET_ALL or any(x in l for x in DET_FUNCS)):
                 res.append(l)
                 res.append(DET)
                 res.extend(block[1:])
